@@ -69,6 +69,7 @@ type Exec struct {
 	quiet    int // >0: obligations suppressed (inlined / pure evaluation)
 	termMode bool
 	zeroDepth int
+	unroll   int // >0: counterexample-search mode (loops unrolled this many times, no invariants)
 	noFacts  int // >0: inside a quantifier / definition body: no fresh constants or facts
 	depth    int
 	names    map[string]int
@@ -188,8 +189,8 @@ func (x *Exec) named(hint string, v Term) Term {
 // (at(new,i)==v and the frame for every other index), so that E-matching does not have to go through
 // the array encoding.
 func (x *Exec) seqUpdateFacts(nv, old, i, v Term) Term {
-	if x.termMode {
-		return nv
+	if x.termMode || x.unroll > 0 {
+		return nv // search mode: the array encoding itself is exact; no derived quantified facts
 	}
 	c := x.W.Fresh("upd", nv.Sort)
 	c.GoT = nv.GoT
@@ -1196,6 +1197,32 @@ func (x *Exec) execLoopCommon(node ast.Node, bodyPos token.Pos, env *Env, label 
 	lc, ord := x.loopContract(node)
 	if x.termMode {
 		unsupported("loop in term mode")
+	}
+	if x.unroll > 0 {
+		// counterexample-search mode: bounded unrolling from the real entry state instead of invariants
+		_ = lc
+		var exits []*Env
+		cur := env
+		for it := 0; it < x.unroll && cur != nil; it++ {
+			fr := &frame{kind: "loop", label: label}
+			x.cx.frames = append(x.cx.frames, fr)
+			g := guard(cur)
+			exits = append(exits, x.branch(cur, Not(g)))
+			out := body(x.branch(cur, g))
+			end := x.merge(append([]*Env{out}, fr.continues...))
+			if end != nil && post != nil {
+				end = post(end)
+			}
+			x.cx.frames = x.cx.frames[:len(x.cx.frames)-1]
+			exits = append(exits, fr.breaks...)
+			cur = end
+		}
+		if cur != nil {
+			// unwinding assumption: inputs needing more iterations are excluded from the search
+			g := guard(cur)
+			exits = append(exits, x.branch(cur, Not(g)))
+		}
+		return x.merge(exits)
 	}
 	tag := fmt.Sprintf("loop%d", ord)
 	entryEnv := env.clone()
